@@ -493,6 +493,7 @@ void HttpRequest::read()
 	}
 
 	_path = Url::decode(_res.substring(0, pathend));
+	_path = String(*_path); // a decoded %00 ends the path: the ".." filter below must see everything that is kept
 
 	if(_path.contains(".."))
 		_path = _path.replace("..", "");
